@@ -38,6 +38,7 @@ type isScript struct {
 	kind      string
 	steps     []isStep
 	hung      bool
+	bodyLen   int      // number of steps before the final drain
 	stillBusy []string // actors still blocked after the final drain
 	panics    []string
 }
@@ -267,6 +268,7 @@ func runInprocScript(rng *Rng, kind string, o isOpts) *isScript {
 			sc.steps = append(sc.steps, exec(st))
 		}
 	}
+	sc.bodyLen = len(sc.steps)
 	// drain: make the handler return and end the context; afterwards nothing may remain blocked
 	if !returned && eng.idle("h") {
 		sc.steps = append(sc.steps, exec(isStep{actor: "h", op: "return", herr: "nil"}))
